@@ -30,7 +30,7 @@ def plan(tier, seed):
         cases.append({"index": i, "seed": [seed, 81, i], "cfg": "quick" if tier == "quick" else "thorough",
                       "cfg_over": {"max_T": 3 if tier == "quick" else 4, "allow_stochastic": stoch},
                       "force": {"filters": i % 3 != 2, "mixed_discrete": i % 4 == 0, "stochastic": stoch},
-                      "agents": 12 if tier == "quick" else 48, "env": {"VERIF_X64": "1"}})
+                      "agents": (12 if i % 11 != 10 else 300) if tier == "quick" else (48 if i % 6 != 5 else [300, 700, 1100][(i // 6) % 3]), "env": {"VERIF_X64": "1"}})
     return cases
 
 
